@@ -146,6 +146,32 @@ def spec(tier, seed):
         """, unwind=2, exhaustive=True, cost=5, bounds="every row and column (full u32 width)",
           functions=["rusty_common::Position::new", "rusty_common::Position::row", "rusty_common::Position::col",
                      "rusty_common::Position::inc_col", "rusty_common::Position::inc_row"])
+    pd = b.file("rusty_common/src/positioned.rs", "rusty_common", "positioned")
+    b.add(pd, "vk_c11_positioned_keeps_position", """
+        // a located node keeps its position through every re-wrapping the linter does (map, try_map, at, at_rc)
+        let row: u32 = kani::any();
+        let col: u32 = kani::any();
+        kani::assume(row >= 1 && col >= 1);
+        let p = Position::new(row, col);
+        let v: u8 = kani::any();
+        let node = v.at_pos(p);
+        assert!(node.pos() == p && node.element == v);
+        let mapped = node.clone().map(|x| (x, 1u8));
+        assert!(mapped.pos() == p && mapped.element == (v, 1));
+        let ok: bool = kani::any();
+        match node.clone().try_map(|x| if ok { Ok(x as u16 + 1) } else { Err(7u8) }) {
+            Ok(m) => assert!(ok && m.pos() == p && m.element == v as u16 + 1),
+            Err(e) => assert!(!ok && e == 7),
+        }
+        let other = 9u8.at(&node);
+        assert!(other.pos() == p);
+        assert!(3u8.at_rc(row, col).pos() == p);
+        assert!(p.pos() == p);
+        let boxed = Box::new(node);
+        assert!(boxed.pos() == p);
+        """, unwind=2, exhaustive=True, cost=5, bounds="every row and column (full u32 width)",
+          functions=["rusty_common::Positioned::map", "rusty_common::Positioned::try_map", "rusty_common::AtPos::at_pos", "rusty_common::AtPos::at",
+                     "rusty_common::AtPos::at_rc", "rusty_common::HasPos::pos"])
     return b.build(
         tier,
         bounds="texts of 1..5 characters over {x, CR, LF} (quick) / ..7 (thorough); reader positions on texts of 0..3 / ..5; call stacks of 0..3 / ..4",
